@@ -159,7 +159,13 @@ func (c *compiler) assembleLine(in sourceLine) (Instruction, error) {
 			aMode = DIRECT
 		}
 	} else {
-		mode, err := getAddressMode(in.amode)
+		var mode AddressMode
+		var err error
+		if c.config.Mode == ICWS88 {
+			mode, err = getAddressMode88(in.amode)
+		} else {
+			mode, err = getAddressMode(in.amode)
+		}
 		if err != nil {
 			return Instruction{}, fmt.Errorf("invalid amode: '%s'", in.amode)
 		}
@@ -172,7 +178,13 @@ func (c *compiler) assembleLine(in sourceLine) (Instruction, error) {
 			bMode = DIRECT
 		}
 	} else {
-		mode, err := getAddressMode(in.bmode)
+		var mode AddressMode
+		var err error
+		if c.config.Mode == ICWS88 {
+			mode, err = getAddressMode88(in.bmode)
+		} else {
+			mode, err = getAddressMode(in.bmode)
+		}
 		if err != nil {
 			return Instruction{}, fmt.Errorf("invalid bmode: '%s'", in.bmode)
 		}
